@@ -527,7 +527,7 @@ impl Report {
             "wall_s": (wall * 1000.0).round() / 1000.0,
             "violations": new_violations.len(),
         });
-        let dir = verif_root().join("evidence");
+        let dir = std::env::var("VERIF_EVIDENCE_DIR").map(PathBuf::from).unwrap_or_else(|_| verif_root().join("evidence"));
         let _ = std::fs::create_dir_all(&dir);
         let path = dir.join(format!("{}.json", self.property));
         if let Err(e) = std::fs::write(&path, serde_json::to_string_pretty(&evidence).unwrap()) {
@@ -552,7 +552,7 @@ impl Report {
             );
             return 0;
         }
-        let rdir = verif_root().join("replays");
+        let rdir = std::env::var("VERIF_REPLAYS_DIR").map(PathBuf::from).unwrap_or_else(|_| verif_root().join("replays"));
         let _ = std::fs::create_dir_all(&rdir);
         for v in &new_violations {
             let h = hash128(&[v.signature.as_bytes()]) as u32;
